@@ -225,7 +225,13 @@ impl PhoneticSuggestion {
 
             // Auto Correct item.
             if let Some(correct) = self.search_corrected(string.word(), data) {
-                let corrected = self.phonetic.convert(correct);
+                // The entries are written in Latin script; a user entry which isn't (the phonetic
+                // parser only takes ASCII text) is already the text to show.
+                let corrected = if correct.is_ascii() {
+                    self.phonetic.convert(correct)
+                } else {
+                    correct.to_owned()
+                };
                 // Treat it as the first priority.
                 suggestions.push(Rank::first_ranked(corrected));
             }
